@@ -136,6 +136,7 @@ func verifVFSPut(name string, content []byte) {
 	}
 }
 func verifVFSDel(name string) { verifos.Remove(name) }
+func verifVFSList() []string { return nil } // only environment models call it, and those are not part of native runs
 func verifTask(name string, notification bool) {}
 func verifSched(explore bool)                     {}
 func verifMapOrder(explore bool)                  {}
